@@ -3,6 +3,13 @@
 A case (all times integer µs, see `lean/Drivers/Actor.lean` for the grammar):
   limits[a]   restart limit of actor a (None = unlimited)
   actors[a]   {"runs":[{"aw":[d…],"end":O,"oc":{"d":d,"end":O}}…]}  script per invocation number of `_run()`
+              O = how the invocation ends (`KIND` maps each name to the kind that is observed):
+                ret | exc (an Exception) | base (a BaseException) | cancelled (CancelledError raised by the code itself)
+                | sysexit | kbdint (custom BaseException subclasses shaped like SystemExit / KeyboardInterrupt — the real
+                  ones are re-raised by asyncio out of the event loop and would end the harness)
+                | excgroup (ExceptionGroup) | bgroup_of_exc (`BaseExceptionGroup(…)` of Exceptions only: Python makes it an
+                  ExceptionGroup) | basegroup (BaseExceptionGroup of non-Exceptions, what a TaskGroup raises when a child
+                  dies with a BaseException) | mixedgroup (BaseExceptionGroup with both kinds of members)
   ctl         control groups at strictly increasing instants; group i sits at (multiple of 1000) + 10·(i+1) µs while every
               scripted duration is a multiple of 1000 µs, so a control instant never ties with an internal timer (ties
               between two timers are resolved by the heap of the event loop, i.e. are not determined by the code under
@@ -19,7 +26,7 @@ import itertools
 import random
 from typing import Any
 
-OUTCOMES = ["ret", "exc", "base", "cancelled"]
+OUTCOMES = ["ret", "exc", "base", "cancelled", "excgroup", "basegroup"]   # one script name per KIND (exhaustive scopes)
 MS = 1000
 SEC = 1_000_000
 
@@ -30,6 +37,56 @@ class ProbeExc(Exception):
 
 class ProbeBase(BaseException):
     pass
+
+
+class ProbeSystemExit(BaseException):
+    """Shaped like `SystemExit` but NOT a subclass of it (asyncio re-raises the real one out of `run_forever`)."""
+
+    def __init__(self, label: str) -> None:
+        super().__init__(label)
+        self.code = 1
+
+
+class ProbeKeyboardInterrupt(BaseException):
+    """Shaped like `KeyboardInterrupt` but NOT a subclass of it."""
+
+
+PROBE_CLASSES = (ProbeExc, ProbeBase, ProbeSystemExit, ProbeKeyboardInterrupt)
+
+# script outcome name -> observed kind
+KIND = {"ret": "ret", "exc": "exc", "base": "base", "cancelled": "cancelled", "sysexit": "base", "kbdint": "base",
+        "excgroup": "excgroup", "bgroup_of_exc": "excgroup", "basegroup": "basegroup", "mixedgroup": "basegroup"}
+
+
+def make_error(out: str, label: str) -> BaseException | None:
+    """The error object a scripted outcome raises (`None`: plain return)."""
+    if out == "ret":
+        return None
+    if out == "exc":
+        return ProbeExc(label)
+    if out == "base":
+        return ProbeBase(label)
+    if out == "sysexit":
+        return ProbeSystemExit(label)
+    if out == "kbdint":
+        return ProbeKeyboardInterrupt(label)
+    if out == "cancelled":
+        return asyncio.CancelledError()
+    if out == "excgroup":
+        return ExceptionGroup(label, [ProbeExc(label)])
+    if out == "bgroup_of_exc":
+        return BaseExceptionGroup(label, [ProbeExc(label), ProbeExc(label)])
+    if out == "basegroup":
+        return BaseExceptionGroup(label, [ProbeBase(label)])
+    if out == "mixedgroup":
+        return BaseExceptionGroup(label, [ProbeExc(label), ProbeSystemExit(label)])
+    raise ValueError(out)
+
+
+def finish(out: str, label: str) -> None:
+    err = make_error(out, label)
+    if err is not None:
+        raise err
 
 
 # --------------------------------------------------------------------------------------- real-code runner
@@ -51,18 +108,31 @@ def run_case_impl(case: dict) -> tuple[dict, dict]:
 def _kind_of_exc(e: BaseException) -> str:
     if isinstance(e, asyncio.CancelledError):
         return "cancelled"
+    if isinstance(e, ExceptionGroup):
+        return "excgroup"
+    if isinstance(e, BaseExceptionGroup):
+        return "basegroup"
     if isinstance(e, Exception):
         return "exc"
     return "base"
 
 
-def _flatten(g: BaseException) -> list[BaseException]:
-    if isinstance(g, BaseExceptionGroup):
-        out: list[BaseException] = []
-        for e in g.exceptions:
-            out += _flatten(e)
-        return out
-    return [g]
+def _label_of(e: BaseException) -> str:
+    """The task label a probe error carries (`*` for anything else, e.g. a CancelledError)."""
+    if isinstance(e, PROBE_CLASSES) and e.args:
+        return e.args[0]
+    if isinstance(e, BaseExceptionGroup) and e.exceptions and all(isinstance(x, PROBE_CLASSES) for x in e.exceptions):
+        return e.message
+    return "*"
+
+
+# What the PROPERTY calls a failure of the run logic — "an unhandled exception": the error is an `Exception`.  Read off
+# the real error objects (not from the model): exc, excgroup.  Everything else (return, cancellation, any other
+# BaseException incl. a BaseExceptionGroup that is not an ExceptionGroup) must never be followed by another invocation.
+FAILURE_KINDS = frozenset(KIND[o] for o in KIND if isinstance(make_error(o, "x"), Exception))
+ERROR_KINDS = frozenset(k for k in KIND.values() if k not in ("ret", "cancelled"))
+assert all(o == "ret" or _kind_of_exc(make_error(o, "x")) == KIND[o] for o in KIND)   # type: ignore[arg-type]
+assert all((KIND[o] in FAILURE_KINDS) == isinstance(make_error(o, "x"), Exception) for o in KIND if o != "ret")
 
 
 async def _main(case: dict, loop: asyncio.AbstractEventLoop) -> tuple[dict, dict]:
@@ -114,12 +184,7 @@ async def _main(case: dict, loop: asyncio.AbstractEventLoop) -> tuple[dict, dict
 
         @staticmethod
         def _finish(out: str, label: str) -> None:
-            if out == "exc":
-                raise ProbeExc(label)
-            if out == "base":
-                raise ProbeBase(label)
-            if out == "cancelled":
-                raise asyncio.CancelledError()
+            finish(out, label)
 
         async def _extra(self, spec: dict, label: str) -> None:
             try:
@@ -165,7 +230,7 @@ async def _main(case: dict, loop: asyncio.AbstractEventLoop) -> tuple[dict, dict
                 self.cancel_seen.setdefault(label, []).append(now())
                 h.append(["exit", n, "cancelled", now()])
                 raise
-            h.append(["exit", n, out, now()])
+            h.append(["exit", n, KIND[out], now()])
             self._finish(out, label)
 
         # -- observation
@@ -199,11 +264,11 @@ async def _main(case: dict, loop: asyncio.AbstractEventLoop) -> tuple[dict, dict
                 await actor.wait()
             raised: list[list[str]] = []
         except BaseExceptionGroup as g:
+            # one member per task that ended with an error; a member may itself be a group (the task's own error)
             raised = []
-            for e in _flatten(g):
+            for e in g.exceptions:
                 k = _kind_of_exc(e)
-                lab = e.args[0] if isinstance(e, (ProbeExc, ProbeBase)) and e.args else "*"
-                raised.append([lab, k])
+                raised.append(["*" if k == "cancelled" else _label_of(e), k])
         rec["raised"] = sorted(raised)
         rec["ret"] = now()
         rec["snap_at_ret"] = actor.snap()
@@ -290,28 +355,33 @@ async def _main(case: dict, loop: asyncio.AbstractEventLoop) -> tuple[dict, dict
 DURS = [1 * MS, 500 * MS, 1 * SEC, 1 * SEC, 2 * SEC, 3 * SEC]
 
 
+RUN_ENDS = (["ret", "exc", "exc", "exc", "base", "cancelled"]
+            + ["excgroup", "excgroup", "bgroup_of_exc", "basegroup", "basegroup", "mixedgroup", "sysexit", "kbdint"])
+TASK_ENDS = ["ret", "ret", "ret", "exc", "base", "cancelled", "excgroup", "basegroup", "mixedgroup", "kbdint"]
+
+
 def gen_oc(rng: random.Random) -> dict:
     return {"d": rng.choice([0, 0, 0, 0, 1 * MS, 500 * MS, 1 * SEC]),
-            "end": rng.choice(["cancelled"] * 5 + ["exc", "exc", "ret", "base"])}
+            "end": rng.choice(["cancelled"] * 7 + ["exc", "exc", "ret", "base", "excgroup", "basegroup", "sysexit"])}
 
 
 def gen_run_script(rng: random.Random) -> dict:
     k = rng.choice([0, 1, 1, 1, 2, 2, 3])
     return {"aw": [rng.choice(DURS) for _ in range(k)],
-            "end": rng.choice(["ret", "exc", "exc", "exc", "base", "cancelled"]),
+            "end": rng.choice(RUN_ENDS),
             "oc": gen_oc(rng)}
 
 
 def gen_extra(rng: random.Random, label: str, allow_spawn: bool = True) -> dict:
     spec: dict = {"op": "add", "label": label,
                   "dur": rng.choice([0, 1 * MS, 500 * MS, 1 * SEC, 2 * SEC, 5 * SEC, 30 * SEC]),
-                  "end": rng.choice(["ret", "ret", "exc", "base", "cancelled"]),
+                  "end": rng.choice(TASK_ENDS),
                   "oc": gen_oc(rng), "spawn": None}
     if allow_spawn and rng.random() < 0.3:
         # (a clean-up task never uses `sleep(0)`: its bare yield would race with the wake-up of a stop() whose
         #  position in the ready queue depends on the iteration order of the `_tasks` *set* — not determined by the code)
         spec["spawn"] = {"dur": rng.choice([1 * MS, 1 * MS, 200 * MS, 1 * SEC, 30 * SEC]),
-                         "end": rng.choice(["ret", "ret", "exc", "base"]), "oc": gen_oc(rng)}
+                         "end": rng.choice(["ret", "ret", "ret", "exc", "base", "excgroup", "basegroup"]), "oc": gen_oc(rng)}
     return spec
 
 
@@ -393,6 +463,9 @@ def tags_of(case: dict) -> list[str]:
                 seen_call = True
             elif op["op"] == "add" and seen_call:
                 tags.add("add-after-call")
+    for ac in case["actors"]:
+        for sc in ac["runs"]:
+            tags.add("run-end:" + sc["end"])
     for lim in case["limits"]:
         tags.add("limit:" + ("none" if lim is None else str(min(lim, 2)) + ("+" if lim > 2 else "")))
     if len(case["limits"]) > 1:
@@ -425,14 +498,6 @@ async def _caa_main(case: dict, loop: asyncio.AbstractEventLoop) -> tuple[dict, 
     spec = case["task"]
     holder: dict = {"task": None, "teardown": False, "done_at": None, "deliveries": []}
 
-    def finish(out: str) -> None:
-        if out == "exc":
-            raise ProbeExc("T")
-        if out == "base":
-            raise ProbeBase("T")
-        if out == "cancelled":
-            raise asyncio.CancelledError()
-
     async def worker() -> None:
         try:
             await asyncio.sleep(spec["dur"] / 1e6)
@@ -451,7 +516,7 @@ async def _caa_main(case: dict, loop: asyncio.AbstractEventLoop) -> tuple[dict, 
                     break
                 except asyncio.CancelledError:
                     j += 1
-        finish(out)
+        finish(out, "T")
 
     callers: list[dict] = []
     bg: list[asyncio.Task[Any]] = []
@@ -463,12 +528,10 @@ async def _caa_main(case: dict, loop: asyncio.AbstractEventLoop) -> tuple[dict, 
         try:
             await cancel_and_await(task)
             rec["raised"] = "none"
-        except asyncio.CancelledError:
-            rec["raised"] = "cancelled"
-        except ProbeExc:
-            rec["raised"] = "exc"
-        except ProbeBase:
-            rec["raised"] = "base"
+        except BaseException as e:  # pylint: disable=broad-except
+            if holder["teardown"]:
+                raise
+            rec["raised"] = _kind_of_exc(e)
         rec["ret"] = now()
         rec["task_done_at_ret"] = task.done()
 
@@ -519,9 +582,10 @@ async def _caa_main(case: dict, loop: asyncio.AbstractEventLoop) -> tuple[dict, 
 def gen_caa_case(rng: random.Random) -> dict:
     """Prior state of the task × instants of bare cancel() calls × 1-3 cancel_and_await callers."""
     oc = [{"k": rng.choice([0, 0, 1, 1, 2, 3]), "d": rng.choice([1 * MS, 500 * MS, 1 * SEC]),
-           "end": rng.choice(["cancelled"] * 4 + ["exc", "base", "ret"])} for _ in range(rng.randint(1, 3))]
+           "end": rng.choice(["cancelled"] * 6 + ["exc", "base", "ret", "excgroup", "basegroup", "kbdint"])}
+          for _ in range(rng.randint(1, 3))]
     task = {"dur": rng.choice([1 * MS, 500 * MS, 1 * SEC, 2 * SEC, 100 * SEC, 100 * SEC]),
-            "end": rng.choice(["ret", "ret", "exc", "base", "cancelled"]), "oc": oc}
+            "end": rng.choice(TASK_ENDS), "oc": oc}
     first = ["create"]
     pre = rng.random()
     if pre < 0.15:
